@@ -41,6 +41,11 @@ def record(plt):
     for col in ax.collections:
         for off in col.get_offsets():
             markers.append((float(off[0]), float(off[1])))
+    for ln in ax.lines:
+        # a marker drawn with plot(x, y, 'o') instead of scatter
+        if ln.get_marker() not in (None, "None", "", " ") and ln.get_linestyle() in ("None", "", " "):
+            for x_, y_ in zip(ln.get_xdata(), ln.get_ydata()):
+                markers.append((float(x_), float(y_)))
     bars = [(float(r.get_x() + r.get_width() / 2.0), float(r.get_height())) for r in ax.patches if isinstance(r, Rectangle)]
     return {"markers": markers, "labels": [t.get_text() for t in ax.texts], "title": ax.get_title(),
             "xlim": tuple(float(v) for v in ax.get_xlim()), "ylim": tuple(float(v) for v in ax.get_ylim()),
